@@ -22,6 +22,6 @@ CFG = dict(
                   'normalize_vector is recomputed by the harness with the same f32 operations and passed as a table',
                   'hnsw_rs graph search: assumed contract = distinct in-range indices with their L2 distance (checked on every recorded raw result when consulted)'],
     assumptions=['finite vectors, no NaN (sort_by with partial_cmp is a total preorder)', 'k*4 + tombstones and ef + tombstones do not overflow usize',
-                 'rebuild() is given distinct identifiers and vectors of one non-zero dimension',
+                 'rebuild() is given distinct identifiers, vectors of one non-zero dimension and, for cosine / dot, of non-zero norm (rebuild does not validate what insert validates; such cases are run for correspondence only)',
                  'queries for cosine / dot have non-zero norm (a zero query has no cosine)'],
 )
